@@ -57,6 +57,10 @@ class Sandbox:
         w("invalid_op_scalar_selection.graphql", "query Q { user(id: 1) { id { x } } }")
         w("schema_dir_bad/a.graphql", "type Query { a: Int }")
         w("schema_dir_bad/b.graphql", "type Broken { ")
+        w("schema_dir_split/a.graphql", "type Query { a: Int")
+        w("schema_dir_split/b.graphql", "}")
+        w("queries_dir_split/a.graphql", "query A { user(id: 1) { id ")
+        w("queries_dir_split/b.graphql", "} }")
         w("invalid_schema_no_query.graphql", "type Mutation { a: Int }")
         w("invalid_schema_interface_not_implemented.graphql", "interface Node { id: ID! } type User implements Node { name: String } type Query { u: User }")
         w("invalid_schema_empty_union.graphql", "union U type Query { u: U }")
@@ -121,6 +125,8 @@ def _violations(sb):
         ("files-to-include-missing", "client", C(files_to_include=[sb.p("nope.py")]), (EX.InvalidConfiguration,)),
         ("schema-syntax", "client", C(schema_path=sb.p("bad_syntax.graphql")), (EX.InvalidGraphqlSyntax,)),
         ("schema-dir-with-one-bad-file", "client", C(schema_path=sb.p("schema_dir_bad")), (EX.InvalidGraphqlSyntax,)),
+        ("schema-dir-files-invalid-alone-valid-when-joined", "client", C(schema_path=sb.p("schema_dir_split")), (EX.InvalidGraphqlSyntax,)),
+        ("queries-dir-files-invalid-alone-valid-when-joined", "client", C(queries_path=sb.p("queries_dir_split")), (EX.InvalidGraphqlSyntax,)),
         ("queries-syntax", "client", C(queries_path=sb.p("bad_queries.graphql")), (EX.InvalidGraphqlSyntax,)),
         ("bad-target-file-type", "schema", S(target_file_path=sb.p("schema_out/schema.txt")), (EX.InvalidConfiguration,)),
         ("schema-strategy-no-source", "schema", S(schema_path=_DROP), (EX.InvalidConfiguration, EX.MissingConfiguration)),
